@@ -57,11 +57,23 @@ Record conn := mkConn {
   cc_stream_in : Z        (* initial stream inflow (what the client advertised) *)
 }.
 
-(* newClientConn; values from the gosync table *)
-Definition conn0 (prio_len stream_in conn_flow : Z) : conn :=
+(* newClientConn; values from the gosync table.  prio_last = StreamID of the last caller-supplied
+   PRIORITY frame (Transport.PriorityFrames), 0 = none: cc.nextStreamID = p.StreamID + 2.
+   conn_flow = the increment of the preface WINDOW_UPDATE (t.ConnectionFlow, or
+   transportDefaultConnFlow when that is < 1); stream_in = cc.streamRecvWindow. *)
+Definition conn0 (prio_len prio_last stream_in conn_flow : Z) : conn :=
   mkConn (snd (out_add_conn 0 c_initialWindowSize)) cc_init_maxFrameSize cc_init_maxConcurrentStreams
-         cc_init_initialWindowSize cc_init_nextStreamID [] false false
+         cc_init_initialWindowSize (if prio_last =? 0 then cc_init_nextStreamID else prio_last + 2) [] false false
          (in_init (mkIn 0 0) (wrap32 (wrap32 conn_flow + c_initialWindowSize))) prio_len stream_in.
+
+(* what the client writes right after the connection preface: its SETTINGS, the connection
+   WINDOW_UPDATE and the caller's PRIORITY frames *)
+Definition preface (kvs : list (Z * Z)) (conn_flow : Z) (prios : list Z) : list ev :=
+  C (FSettings kvs) :: C (FWindowUpdate 0 conn_flow) :: map (fun sid => C (FPriority sid)) prios.
+
+(* the strict peer's books once it has read that preface *)
+Definition mon_init (stream_in conn_flow : Z) : mon :=
+  mkMon 16384 65535 None [] 65535 [] 0 0 0 0 [] (65535 + conn_flow) stream_in.
 
 Inductive cev :=
 | EOpen (hlen : Z) (es : bool)
@@ -286,7 +298,10 @@ Definition conn_step (c : conn) (e : cev) : conn * list ev :=
   | EAppRead sid n eof =>
       match find_cs sid (cc_streams c) with
       | Some s =>
-          if (1 <=? n) && (n <=? cs_buf s) && negb (cs_app_closed s) then
+          (* bufPipe.Read returns an error only once the buffer is empty, and the pipe carries
+             an error only after END_STREAM / RST_STREAM: eof needs one of the two *)
+          if (1 <=? n) && (n <=? cs_buf s) && negb (cs_app_closed s)
+             && (negb eof || cs_peer_ended s || cs_peer_reset s) then
             let '(rc, f2) := in_add_ret (cc_in c) n in
             let '(rs, g2) := if eof then (0, cs_in s) else in_add_ret (cs_in s) n in
             (set_cstreams (set_cin c f2) (upd_cs sid (fun s0 => cs_set_recv s0 g2 (cs_buf s - n)) (cc_streams c)),
